@@ -52,6 +52,7 @@ def show(t):
         if t[0]=='int': return str(t[1])
         if t[0]=='par': return 'arg%d'%t[1]
         if t[0]=='mulc': return '%d*%s'%(t[2],show(t[1]))
+        if t[0]=='ncast': return 'as_u%d(%s)'%(t[2],show(t[1]))
         return '%s(%s)'%(t[0],','.join(show(x) for x in t[1:]))
     return str(t)
 def prove_le(facts, a, b):
@@ -78,6 +79,7 @@ def prove_le(facts, a, b):
         x=st.pop()
         for y in edges.get(x,()):
             if y==b: return True
+            if isinstance(y,tuple) and isinstance(b,tuple) and y and b and y[0]=='int' and b[0]=='int' and y[1]<=b[1]: return True
             if y not in seen: seen.add(y); st.append(y)
     return False
 def nonneg0(facts,t):
@@ -88,6 +90,7 @@ def nonneg0(facts,t):
         if t[0]=='sub': return prove_le(facts,t[2],t[1])
         if t[0]=='absdiff': return True
         if t[0]=='cast': return nonneg0(facts,t[1])
+        if t[0]=='ncast': return True
         if t[0]=='add': return nonneg0(facts,t[1]) and nonneg0(facts,t[2])
     return False
 def nonneg(facts,t):
@@ -98,6 +101,7 @@ def nonneg(facts,t):
         if t[0]=='sub': return prove_le(facts,t[2],t[1])
         if t[0]=='absdiff': return True
         if t[0]=='cast': return nonneg(facts,t[1])
+        if t[0]=='ncast': return True
     return prove_le(facts,('int',0),t)
 
 
@@ -121,7 +125,8 @@ class Rec:
         s.scale=scale; s.ival=ival; s.val=val; s.sign=sign; s.tag=tag
     def __repr__(s): return 'Rec<%s scale=%s ival=%s val=%s>'%(s.tag,show(s.scale),s.ival,pshow(s.val) if isinstance(s.val,dict) else s.val)
 TERM0=('int',0)
-def isterm(v): return isinstance(v,tuple) and v and v[0] in('sc','int','par','max','min','add','sub','satsub','cast','absdiff','unk','mulc')
+INT_BITS={'u8':8,'u16':16,'u32':32,'u64':64,'u128':128,'usize':64,'i8':8,'i16':16,'i32':32,'i64':64,'i128':128,'isize':64}
+def isterm(v): return isinstance(v,tuple) and v and v[0] in('sc','int','par','max','min','add','sub','satsub','cast','absdiff','unk','mulc','ncast')
 def lin(t,facts):
     # -> dict atom->coef (const under key 1)
     if t[0]=='int': return {1:t[1]} if t[1] else {}
@@ -139,6 +144,9 @@ def lin(t,facts):
         return r
     if t[0]=='cast': return lin(t[1],facts)
     if t[0]=='mulc': return {k:v*t[2] for k,v in lin(t[1],facts).items()}
+    if t[0]=='ncast':
+        if nonneg(facts,t[1]) and prove_le(facts,t[1],('int',(1<<t[2])-1)): return lin(t[1],facts)
+        return {t:1}
     if t[0]=='absdiff':
         if prove_le(facts,t[2],t[1]): return lin(('sub',t[1],t[2]),facts)
         if prove_le(facts,t[1],t[2]): return lin(('sub',t[2],t[1]),facts)
@@ -427,7 +435,13 @@ class An:
                 if bop=='Eq': v=('test','is_zero' if b[1]==0 else 'eqc',sn,b[1])
         elif r=='cast':
             a=self.deref(s,self.op(s,rv['op']))
-            if isterm(a): v=('cast',a) if rv['to'].startswith('u') and not rv['op'].get('pl',{}).get('ty','u').startswith('u') else a
+            if isterm(a):
+                src_ty=(rv['op'].get('pl',{}).get('ty') or rv['op'].get('ty') or '').lstrip('&')
+                tb=INT_BITS.get(rv['to']); sb=INT_BITS.get(src_ty)
+                if tb is not None and sb is not None and tb<sb:
+                    v=('ncast',a,tb)     # narrowing: value-preserving only when 0 <= a < 2^bits is provable
+                else:
+                    v=('cast',a) if rv['to'].startswith('u') and not src_ty.startswith('u') else a
             elif isinstance(a,IntV): v=a
         elif r=='discr': v=('discr',self.deref(s,self.read(s,rv['pl'])))
         elif r=='agg':
